@@ -218,14 +218,15 @@ impl CompressionCodecState {
 						.map_err(|deflate_error| error("Xz", &deflate_error))?;
 					let written = compress.total_in() as usize - before_in;
 					match status {
-						xz2::stream::Status::MemNeeded => {
-							// There may be more to write.
-							// That may be true even if the input is empty, because bzip2
+						xz2::stream::Status::MemNeeded | xz2::stream::Status::Ok => {
+							// There is more to write (`Ok` means that progress was made
+							// but that the stream is not finished: that is `StreamEnd`).
+							// That may be true even if the input is empty, because xz
 							// may have buffered some input.
 							input = &input[written..];
 							self.output_vec.resize(self.output_vec.len() * 2, 0);
 						}
-						xz2::stream::Status::Ok | xz2::stream::Status::GetCheck => {
+						xz2::stream::Status::GetCheck => {
 							return Err(error(
 								"Xz",
 								&format_args!("got unexpected status from xz2: {status:?}"),
